@@ -173,6 +173,11 @@ def _inductive(v, prop):
     for ob in res["obligations"]:
         if not ob["discharged"]:
             v.violation(f"{prop}.design_inductive_invariant", site="BadsCtlApa.tla", where=ob["name"])
+    from .apalache import abstraction_covers
+    xc = abstraction_covers()
+    v.coverage["apalache_skeleton_covers_badsrun"] = xc
+    if not xc["covered"]:
+        v.violation(f"{prop}.design_skeleton_drift", site="BadsCtlApa.tla vs BadsRun.tla", where=str(xc["missing"]))
 
 
 def check_C03(tier):
